@@ -288,4 +288,151 @@ theorem tape_agree (fs : JFields) (gt : Bytes) (h : PlainF fs) :
     toTextDeTape (jtapeF fs 0 gt) = tapeOf (toDoc fs) :=
   tapeF_agree fs 0 gt h
 
+/-! ### well-formedness of the translated document -/
+
+/-- an object or an array -/
+def IsCont : Node → Prop
+  | .obj _ | .arr _ => True
+  | _ => False
+
+theorem hdr_wf (h : Bytes) (n : Node) (hc : IsCont n) : (Node.hdr h n).wf = n.wf := by
+  cases n <;> simp_all [IsCont, Node.wf]
+
+/-- a braced value of the sub-fragment translates to a container -/
+theorem braced_cont : ∀ (v : JVal) (after : Bytes), PlainV v → JValidV v after → v.isBraced → IsCont (toNode v)
+  | .scal _ _, _, _, _, hb => by simp [JVal.isBraced] at hb
+  | .empty _ _, _, _, _, _ => by simp [toNode, IsCont]
+  | .obj .., _, _, _, _ => by simp [toNode, IsCont]
+  | .arrS .., _, _, _, _ => by simp [toNode, IsCont]
+  | .arrC .., _, _, _, _ => by simp [toNode, IsCont]
+  | .ghostIn _ _ _ v, after, hp, hv, _ => by
+      simp only [PlainV] at hp
+      simp only [JValidV] at hv
+      simp only [toNode]
+      exact braced_cont v after hp hv.2.2.2.2.2 hv.2.2.2.1
+  | .mixed .., _, hp, _, _ => by simp [PlainV] at hp
+
+theorem cont_braced (v : JVal) (h : v.isContainer) : v.isBraced := by
+  cases v <;> simp_all [JVal.isContainer, JVal.isBraced]
+
+mutual
+theorem wfV : ∀ (v : JVal) (after : Bytes), PlainV v → JValidV v after → (toNode v).wf = true
+  | .scal _ _, _, _, _ => by simp [toNode, Node.wf]
+  | .empty _ _, _, _, _ => by simp [toNode, Node.wf, wfNodes]
+  | .obj _ _ k _ o v rest gc, after, hp, hv => by
+      simp only [PlainV] at hp
+      simp only [JValidV] at hv
+      simp only [toNode, Node.wf, wfFields, Bool.and_eq_true]
+      exact ⟨wfV v _ hp.2.1 hv.2.2.2.2.2.2.1, wfF rest _ hp.2.2 hv.2.2.2.2.2.2.2⟩
+  | .arrS _ _ s0 rest gc, after, hp, hv => by
+      simp only [PlainV] at hp
+      simp only [JValidV] at hv
+      simp only [toNode, Node.wf, wfNodes, Bool.and_eq_true]
+      exact ⟨trivial, wfVs rest _ hp hv.2.2.2.2.2.2⟩
+  | .arrC _ first rest gc, after, hp, hv => by
+      simp only [PlainV] at hp
+      simp only [JValidV] at hv
+      simp only [toNode, Node.wf, wfNodes, Bool.and_eq_true]
+      exact ⟨wfV first _ hp.1 hv.2.2.2.1, wfVs rest _ hp.2 hv.2.2.2.2⟩
+  | .ghostIn _ _ _ v, after, hp, hv => by
+      simp only [PlainV] at hp
+      simp only [JValidV] at hv
+      simp only [toNode]
+      exact wfV v after hp hv.2.2.2.2.2
+  | .mixed .., _, hp, _ => by simp [PlainV] at hp
+theorem wfF : ∀ (fs : JFields) (after : Bytes), PlainF fs → JValidF fs after → wfFields (toFields fs) = true
+  | .nil, _, _, _ => by simp [toFields, wfFields]
+  | .cons _ k _ o v rest, after, hp, hv => by
+      simp only [PlainF] at hp
+      simp only [JValidF] at hv
+      simp only [toFields, wfFields, Bool.and_eq_true]
+      exact ⟨wfV v _ hp.2.1 hv.2.2.2.2.1, wfF rest _ hp.2.2 hv.2.2.2.2.2⟩
+  | .consImp _ k v rest, after, hp, hv => by
+      simp only [PlainF] at hp
+      simp only [JValidF] at hv
+      simp only [toFields, wfFields, Bool.and_eq_true]
+      exact ⟨wfV v _ hp.2.1 hv.2.2.2.2.1, wfF rest _ hp.2.2 hv.2.2.2.2.2⟩
+  | .ghost _ _ rest, after, hp, hv => by
+      simp only [PlainF] at hp
+      simp only [JValidF] at hv
+      simp only [toFields]
+      exact wfF rest after hp hv.2.2
+  | .consHdr _ k _ o _ hd body rest, after, hp, hv => by
+      simp only [PlainF] at hp
+      simp only [JValidF] at hv
+      have hb := hv.2.2.2.2.2.2.2.2
+      have hc := braced_cont body _ hp.2.2.1 hb.2.1 (cont_braced body hb.1)
+      simp only [toFields, wfFields, Bool.and_eq_true, hdr_wf _ _ hc]
+      exact ⟨wfV body _ hp.2.2.1 hb.2.1, wfF rest _ hp.2.2.2 hb.2.2⟩
+  | .paramVal .., _, hp, _ => by simp [PlainF] at hp
+  | .paramObj .., _, hp, _ => by simp [PlainF] at hp
+theorem wfVs : ∀ (vs : JVals) (after : Bytes), PlainVs vs → JValidVs vs after → wfNodes (toNodes vs) = true
+  | .nil, _, _, _ => by simp [toNodes, wfNodes]
+  | .cons v rest, after, hp, hv => by
+      simp only [PlainVs] at hp
+      simp only [JValidVs] at hv
+      simp only [toNodes, wfNodes, Bool.and_eq_true]
+      exact ⟨wfV v _ hp.1 hv.1, wfVs rest _ hp.2 hv.2⟩
+end
+
+/-! ### (2) from bytes to value on the tape path -/
+
+/-- C02 end to end, tape path: for every document of the sub-fragment, every valid layout of it
+(`fs` carries the layout, `gt` the trailing blanks), both encodings and every root target type that
+requests the document's shape, the tape the parser model produces from the BYTES deserializes to the
+value of the layout-free document: the value does not depend on the layout and is the document's. -/
+theorem C02_tape_end_to_end (enc : TextDe.Enc) (ty : TextDe.Ty) (fs : JFields) (gt : Bytes)
+    (hgt : Blank gt) (hv : JValidF fs gt) (hb : hasBom (jrenderF fs ++ gt) = false) (hp : PlainF fs)
+    (hroot : Ty.isRoot ty = true) (hfit : FitsT enc false ty (.obj (toDoc fs))) :
+    ∃ T b, TextTape.parse (jrenderF fs ++ gt) = .ok T b ∧
+      TextDe.deTape enc ty (toTextDeTape T) = valueOf enc ty (toDoc fs) := by
+  refine ⟨jtapeF fs 0 gt, false, parse_tree fs gt hgt hv hb, ?_⟩
+  rw [tape_agree fs gt hp]
+  exact TextDe.deTape_eq_valueOf enc ty (toDoc fs) hroot (wfF fs gt hp hv) hfit
+
+/-- the same with a UTF-8 byte order mark in front -/
+theorem C02_tape_end_to_end_bom (enc : TextDe.Enc) (ty : TextDe.Ty) (fs : JFields) (gt : Bytes)
+    (hgt : Blank gt) (hv : JValidF fs gt) (hb : hasBom (jrenderF fs ++ gt) = false) (hp : PlainF fs)
+    (hroot : Ty.isRoot ty = true) (hfit : FitsT enc false ty (.obj (toDoc fs))) :
+    ∃ T b, TextTape.parse (0xef :: 0xbb :: 0xbf :: (jrenderF fs ++ gt)) = .ok T b ∧
+      TextDe.deTape enc ty (toTextDeTape T) = valueOf enc ty (toDoc fs) := by
+  refine ⟨jtapeF fs 0 gt, true, parse_tree_bom fs gt hgt hv hb, ?_⟩
+  rw [tape_agree fs gt hp]
+  exact TextDe.deTape_eq_valueOf enc ty (toDoc fs) hroot (wfF fs gt hp hv) hfit
+
+/-- the hypotheses are satisfiable: the bytes `a={1 {b=c} {}} d={{x}}` + newline (C01's `exampleTree`)
+into `st(a:seq(ign); d:seq(seq(str)); z:opt(i64))` -/
+example :
+    let ty : TextDe.Ty := .st [([97], .seq .ign), ([100], .seq (.seq .str)), ([122], .opt .i64)]
+    ∃ T b, TextTape.parse (jrenderF exampleTree ++ [10]) = .ok T b ∧
+      TextDe.deTape .utf8 ty (toTextDeTape T) = valueOf .utf8 ty (toDoc exampleTree) ∧
+      valueOf .utf8 ty (toDoc exampleTree) =
+        .ok (.st [([97], .seq [.ign, .ign, .ign]), ([100], .seq [.seq [.str [120]]]), ([122], .none)]) := by
+  intro ty
+  obtain ⟨hv, hgt, hb⟩ := exampleTree_valid
+  have hp : PlainF exampleTree := by simp [exampleTree, PlainF, PlainV, PlainVs]
+  have hfit : FitsT .utf8 false ty (.obj (toDoc exampleTree)) := by
+    apply FitsT.st
+    intro k o v hm i t hl
+    simp only [toDoc, exampleTree, toFields, toNode, toNodes, List.mem_cons, Prod.mk.injEq, List.not_mem_nil, or_false] at hm
+    rcases hm with ⟨rfl, rfl, rfl⟩ | ⟨rfl, rfl, rfl⟩
+    · have h : TextDe.lookupIdx (TextDe.decode .utf8 [97]) [([97], TextDe.Ty.seq .ign), ([100], .seq (.seq .str)), ([122], .opt .i64)] 0
+          = some (0, .seq .ign) := by rfl
+      rw [h] at hl; simp at hl; obtain ⟨_, rfl⟩ := hl
+      exact FitsT.seq (fun v _ => FitsT.ign)
+    · have h : TextDe.lookupIdx (TextDe.decode .utf8 [100]) [([97], TextDe.Ty.seq .ign), ([100], .seq (.seq .str)), ([122], .opt .i64)] 0
+          = some (1, .seq (.seq .str)) := by rfl
+      rw [h] at hl; simp at hl; obtain ⟨_, rfl⟩ := hl
+      apply FitsT.seq
+      intro v hv'
+      simp only [expandNodes, List.mem_cons, List.not_mem_nil, or_false] at hv'
+      subst hv'
+      apply FitsT.seq
+      intro v hv'
+      simp only [expandNodes, List.mem_cons, List.not_mem_nil, or_false] at hv'
+      subst hv'
+      exact FitsT.scalar rfl
+  obtain ⟨T, b, h1, h2⟩ := C02_tape_end_to_end .utf8 ty exampleTree [10] hgt hv hb hp rfl hfit
+  exact ⟨T, b, h1, h2, by rfl⟩
+
 end Jomini.TextE2E
